@@ -457,3 +457,63 @@ func TestC18_R_ManyFilesFewDescriptors(t *testing.T) {
 		t.Fatal(err)
 	}
 }
+
+// A tree that spans file systems: two freshly made tmpfs are mounted inside it, each holding a file with two names (a hard
+// link). Fresh file systems hand out the same inode numbers, so the two files agree in inode number and differ in device
+// and content. Skipped where mounting is not permitted.
+func TestC18_R_TreeSpanningTwoFileSystems(t *testing.T) {
+	base, err := os.MkdirTemp("", "verif-c18-mnt-")
+	if err != nil {
+		t.Skipf("harness: %v", err)
+	}
+	defer os.RemoveAll(base)
+	rootDir := filepath.Join(base, "root")
+	desc := &fsNode{Kind: fsDir, Kids: map[string]*fsNode{"plain.txt": {Kind: fsFile, Data: []byte("on the outer file system")}}}
+	if err := os.MkdirAll(rootDir, 0o755); err != nil {
+		t.Fatal(err)
+	}
+	if err := os.WriteFile(filepath.Join(rootDir, "plain.txt"), desc.Kids["plain.txt"].Data, 0o644); err != nil {
+		t.Fatal(err)
+	}
+	var mounted []string
+	defer func() {
+		for _, m := range mounted {
+			_ = syscall.Unmount(m, syscall.MNT_DETACH)
+		}
+	}()
+	inodes := map[string]uint64{}
+	for i, name := range []string{"vol-a", "vol-b"} {
+		mp := filepath.Join(rootDir, name)
+		if err := os.Mkdir(mp, 0o755); err != nil {
+			t.Fatal(err)
+		}
+		if err := syscall.Mount("tmpfs", mp, "tmpfs", 0, "size=4m"); err != nil {
+			t.Skipf("harness: mounting a tmpfs is not permitted here: %v", err)
+		}
+		mounted = append(mounted, mp)
+		content := lcgBytes(300000+i, byte(50+i), 0) // more than one chunk, different per volume
+		if err := os.WriteFile(filepath.Join(mp, "data.bin"), content, 0o644); err != nil {
+			t.Fatal(err)
+		}
+		if err := os.Link(filepath.Join(mp, "data.bin"), filepath.Join(mp, "same-data.bin")); err != nil {
+			t.Fatal(err)
+		}
+		var stt syscall.Stat_t
+		if err := syscall.Stat(filepath.Join(mp, "data.bin"), &stt); err == nil {
+			inodes[name] = stt.Ino
+		}
+		desc.Kids[name] = &fsNode{Kind: fsDir, Kids: map[string]*fsNode{
+			"data.bin":      {Kind: fsFile, Data: content},
+			"same-data.bin": {Kind: fsFile, Data: content},
+		}}
+	}
+	st := NewStore()
+	ls := st.LinkSystem()
+	l, _, err := builder.BuildUnixFSRecursive(rootDir, ls)
+	if err != nil {
+		t.Fatalf("C18: importing a tree that spans two mounted file systems: %v", err)
+	}
+	if err := c18Compare(st, ls, cidOf(l), desc, ""); err != nil {
+		t.Fatalf("C18: tree spanning two file systems (hard-linked files with inode numbers %v): %v", inodes, err)
+	}
+}
